@@ -1103,7 +1103,9 @@ theorem clean_exec (s : Sys) (op : Nat) (prio : Int) (req : List Nat) (adv : Adv
       winv_setCtx h2 h2.id rfl
     have h4 := winv_advanceCb h3 adv 1
     split
-    · exact clean_execWork h4 adv _
+    · split
+      · exact clean_execWork h4 adv _
+      · exact clean_failWith h4.id h4.tracked _ _
     · exact clean_failWith h4.id h4.tracked _ _
   · exact clean_failWith h2.id h2.tracked _ _
 
@@ -1117,6 +1119,7 @@ def valEvs : ValOut → List Ev
 inductive Tail (adv : Adv) : List Ev → Bool → Prop where
   | acqFail : Tail adv [.abort] false
   | cp1 : Tail adv [.cp 1 false, .abort] false
+  | ended : Tail adv [.cp 1 true, .abort] false      -- ended on the way to the work function: no work
   | workRaise : adv.workOk = false → Tail adv [.cp 1 true, .work false, .abort] false
   | cp2 : adv.workOk = true → Tail adv [.cp 1 true, .work true, .cp 2 false, .abort] false
   | valFail : adv.workOk = true → (adv.val = .no ∨ adv.val = .raise) →
@@ -1394,11 +1397,92 @@ theorem advanceCb_id (s : Sys) (c : Ctx) (adv : Adv) (i : Nat) : (advanceCb s c 
 theorem start_id (s : Sys) (op : Nat) (prio : Int) : (s.start op prio).2.id = op := by
   unfold Sys.start; simp only; split <;> rfl
 
-/-- the system the work function finds: every requested resource is owned by the operation — provided the callback
-    of the G1 → S checkpoint, which runs between the last acquisition and the work function, leaves the operation
-    alone (see `c14_work_after_kill_in_g1_checkpoint_witness` for what happens otherwise) -/
+/-! ### an operation that is still listed after a callback has kept what it owned
+
+Everything a callback can do to the system (`WorkAct`) ends operations and nothing else: whoever is still listed
+afterwards was not ended, and nothing was taken from it. -/
+
+/-- operation `op` is listed in `active_operations` -/
+def Listed (s : Sys) (op : Nat) : Prop := ∃ c ∈ s.active, c.id = op
+
+theorem listed_of_ctx? {s : Sys} {op : Nat} (h : (s.ctx? op).isSome = true) : Listed s op := by
+  cases hc : s.ctx? op with
+  | none => rw [hc] at h; cases h
+  | some cx => exact ⟨cx, (ctx?_some hc).1, (ctx?_some hc).2⟩
+
+theorem listed_of_ids {s s' : Sys} (h : s'.active.map (·.id) = s.active.map (·.id)) {o : Nat} (hl : Listed s o) :
+    Listed s' o := by
+  obtain ⟨c, hc, hid⟩ := hl
+  have : c.id ∈ s'.active.map (·.id) := by rw [h]; exact List.mem_map.mpr ⟨c, hc, rfl⟩
+  obtain ⟨c', hc', hcc⟩ := List.mem_map.mp this
+  exact ⟨c', hc', hcc.trans hid⟩
+
+theorem abortById_owns_listed {s : Sys} {o a x : Nat} (h : Owns s a x) (hl : Listed (abortById s o) a) :
+    Owns (abortById s o) a x := by
+  by_cases hne : a = o
+  · subst hne
+    cases hc : s.ctx? a with
+    | none => unfold abortById; rw [hc]; exact h
+    | some cx =>
+      exfalso
+      unfold abortById at hl
+      rw [hc] at hl
+      obtain ⟨c, hc', hid⟩ := hl
+      have hf := finish_finStep s cx
+      rw [(ctx?_some hc).2] at hf
+      exact hf.not_active c hc' hid
+  · exact abortById_owns_other hne h
+
+theorem abortMany_owns_listed : ∀ (ids : List Nat) {s : Sys} {a x : Nat}, Owns s a x →
+    Listed (abortMany s ids) a → Owns (abortMany s ids) a x
+  | [], _, _, _, h, _ => h
+  | o :: ids, s, a, x, h, hl => by
+    unfold abortMany at hl ⊢
+    simp only [List.foldl_cons] at hl ⊢
+    obtain ⟨c, hc, hid⟩ := hl
+    obtain ⟨c1, hc1, hid1⟩ := abortMany_ids ids c hc
+    exact abortMany_owns_listed ids (abortById_owns_listed h ⟨c1, hc1, hid1.trans hid⟩) ⟨c, hc, hid⟩
+
+/-- whatever a callback does: an operation that is still listed afterwards owns what it owned before -/
+theorem applyAct_owns_listed {s : Sys} (a : WorkAct) {o x : Nat} (h : Owns s o x)
+    (hl : Listed (applyAct s a) o) : Owns (applyAct s a) o x := by
+  cases a with
+  | none => exact h
+  | kill t => exact abortById_owns_listed h hl
+  | shutdown =>
+    exact (show Owns (abortMany s (s.active.map (·.id))) o x from abortMany_owns_listed _ h hl)
+  | watchdog => exact abortMany_owns_listed _ h hl
+  | maint =>
+    simp only [applyAct, maintenance, wdExecute] at hl ⊢
+    exact abortMany_owns_listed _ ((sameOwn_checkAndBoost s).owns.mpr h) hl
+
+theorem cbAct_owns_listed {s : Sys} {c : Ctx} (a : WorkAct) (tick : Nat) {op x : Nat} (h : Owns s op x)
+    (hl : Listed (cbAct s c a tick).1 op) : Owns (cbAct s c a tick).1 op x :=
+  applyAct_owns_listed (s := { s with now := s.now + tick }) a h hl
+
+theorem advanceCb_locks (s : Sys) (c : Ctx) (adv : Adv) (i : Nat) :
+    (advanceCb s c adv i).1.locks = (cbAct s c (adv.cpAct i) (adv.cpTick i)).1.locks := by
+  unfold advanceCb; simp only; split <;> rfl
+
+theorem advanceCb_ids (s : Sys) (c : Ctx) (adv : Adv) (i : Nat) :
+    (advanceCb s c adv i).1.active.map (·.id) = (cbAct s c (adv.cpAct i) (adv.cpTick i)).1.active.map (·.id) := by
+  unfold advanceCb; simp only; split
+  · exact setCtx_ids _ _
+  · rfl
+
+theorem advanceCb_owns_listed {s : Sys} {c : Ctx} {adv : Adv} {i op x : Nat} (h : Owns s op x)
+    (hl : Listed (advanceCb s c adv i).1 op) : Owns (advanceCb s c adv i).1 op x := by
+  have h1 := cbAct_owns_listed (c := c) (adv.cpAct i) (adv.cpTick i) h (listed_of_ids (advanceCb_ids s c adv i).symm hl)
+  unfold Owns at h1 ⊢
+  rw [advanceCb_locks]
+  exact h1
+
+/-- the system the work function finds: every requested resource is owned by the operation.  Between the last
+    acquisition and the work function runs one callback, the condition of the G1 → S checkpoint; whatever it does
+    (`WorkAct`), the operation is looked at again afterwards and works only if it is still listed — and then it has
+    kept everything (`advanceCb_owns_listed`).  An operation ended earlier, in its G0 callback, acquires with a
+    context nobody lists and is stopped by the same test. -/
 theorem exec_atWork (s : Sys) (op : Nat) (prio : Int) (req : List Nat) (adv : Adv) (w : Sys)
-    (hsp : (adv.cpAct 1).spares op)
     (h : (exec s op prio req adv).atWork = some w) : ∀ r ∈ req, Owns w op r := by
   unfold exec at h
   simp only at h
@@ -1409,17 +1493,20 @@ theorem exec_atWork (s : Sys) (op : Nat) (prio : Int) (req : List Nat) (adv : Ad
   split at h
   · rename_i hok
     split at h
-    · rw [execWork_atWork] at h
-      cases h
-      intro r hr
-      exact advanceCb_owns_spared hsp (hall hok r hr)
+    · split at h
+      · rename_i hlisted
+        rw [execWork_atWork] at h
+        cases h
+        intro r hr
+        exact advanceCb_owns_listed (hall hok r hr) (listed_of_ctx? hlisted)
+      · simp [failWith] at h
     · simp [failWith] at h
   · simp [failWith] at h
 
 theorem exec_shape (s : Sys) (op : Nat) (prio : Int) (req : List Nat) (adv : Adv) :
     ∃ b0 acqs t, (∀ e ∈ acqs, ∃ r res, e = Ev.acq r res) ∧
       (exec s op prio req adv).log = Ev.cp 0 b0 :: acqs ++ t ∧ Tail adv t (exec s op prio req adv).success ∧
-      ((exec s op prio req adv).atWork = none → t = [.abort] ∨ t = [.cp 1 false, .abort]) := by
+      ((exec s op prio req adv).atWork = none → t = [.abort] ∨ t = [.cp 1 false, .abort] ∨ t = [.cp 1 true, .abort]) := by
   unfold exec
   simp only
   generalize advanceCb (s.start op prio).1 (s.start op prio).2 adv 0 = a0
@@ -1429,12 +1516,16 @@ theorem exec_shape (s : Sys) (op : Nat) (prio : Int) (req : List Nat) (adv : Adv
   split
   · generalize advanceCb (q.1.setCtx { q.2.1 with resAcq := true }) { q.2.1 with resAcq := true } adv 1 = a1
     split
-    · obtain ⟨t, h1, h2⟩ := execWork_shape a1.1 a1.2.1 adv (Ev.cp 0 a0.2.2 :: q.2.2.1 ++ [.cp 1 true])
-      refine ⟨.cp 1 true :: t, hacq, by rw [h1]; simp, h2, ?_⟩
-      intro hn
-      rw [execWork_atWork] at hn
-      cases hn
-    · exact ⟨[.cp 1 false, .abort], hacq, by simp [failWith], by simpa [failWith] using Tail.cp1, fun _ => Or.inr rfl⟩
+    · split
+      · obtain ⟨t, h1, h2⟩ := execWork_shape a1.1 a1.2.1 adv (Ev.cp 0 a0.2.2 :: q.2.2.1 ++ [.cp 1 true])
+        refine ⟨.cp 1 true :: t, hacq, by rw [h1]; simp, h2, ?_⟩
+        intro hn
+        rw [execWork_atWork] at hn
+        cases hn
+      · exact ⟨[.cp 1 true, .abort], hacq, by simp [failWith], by simpa [failWith] using Tail.ended,
+          fun _ => Or.inr (Or.inr rfl)⟩
+    · exact ⟨[.cp 1 false, .abort], hacq, by simp [failWith], by simpa [failWith] using Tail.cp1,
+        fun _ => Or.inr (Or.inl rfl)⟩
   · exact ⟨[.abort], hacq, by simp [failWith], by simpa [failWith] using Tail.acqFail, fun _ => Or.inl rfl⟩
 
 /-! ### a lock the operation never obtains -/
@@ -1686,7 +1777,9 @@ theorem untouched_exec (s : Sys) (op : Nat) (prio : Int) (req : List Nat) (adv :
     have hq : q.1.locks r = some l := by
       rcases hloop (fun res hm => hnever res (by
         split
-        · rw [(execWork_shape _ _ adv _).choose_spec.1]; simp [hm]
+        · split
+          · rw [(execWork_shape _ _ adv _).choose_spec.1]; simp [hm]
+          · simp [failWith, hm]
         · simp [failWith, hm])) with h | ⟨hfalse, _⟩
       · exact h
       · rw [hok] at hfalse; cases hfalse
@@ -1695,7 +1788,9 @@ theorem untouched_exec (s : Sys) (op : Nat) (prio : Int) (req : List Nat) (adv :
     have hid1 := (advanceCb_id (q.1.setCtx { q.2.1 with resAcq := true }) { q.2.1 with resAcq := true } adv 1).trans hqid
     generalize advanceCb (q.1.setCtx { q.2.1 with resAcq := true }) { q.2.1 with resAcq := true } adv 1 = a1 at hl1 hid1 ⊢
     split
-    · exact untouched_execWork hf hid1 hl1 adv hso _
+    · split
+      · exact untouched_execWork hf hid1 hl1 adv hso _
+      · exact untouched_failWith hf hid1 (Or.inl hl1) _ _
     · exact untouched_failWith hf hid1 (Or.inl hl1) _ _
   · rename_i hok
     simp only [hok] at hnever
@@ -1744,7 +1839,11 @@ theorem exec_success_phase (s : Sys) (op : Nat) (prio : Int) (req : List Nat) (a
   · rename_i h1
     simp only [h1, if_true] at h
     split
-    · rename_i h2; simp only [h2, if_true] at h; exact execWork_phase _ _ _ _ h
+    · rename_i h2
+      simp only [h2, if_true] at h
+      split
+      · rename_i h3; simp only [h3, if_true] at h; exact execWork_phase _ _ _ _ h
+      · rename_i h3; simp [h3, failWith] at h
     · rename_i h2; simp [h2, failWith] at h
   · rename_i h1; simp [h1, failWith] at h
 
